@@ -116,6 +116,19 @@ def pick(rng, xs):
     return xs[int(rng.integers(0, len(xs)))]
 
 
+def hd_scale(L, order, r, top):
+    """Dyadic scale (3 significant bits) such that the exponent at the top wavenumber L-1 is about -top;
+    computed with python integers (no overflow)."""
+    lm = L - 1
+    val = top * r ** (2 * order) / float((lm * (lm + 1)) ** order)
+    m, e = math.frexp(val)
+    return math.ldexp(round(m * 8) / 8.0, e)
+
+
+# (order, L): (L(L-1))**order beyond 2**31, 2**63 and 2**64 (integer powers of the wavenumbers must not be used)
+HIGH_ORDER = [(4, 16), (5, 12), (6, 40), (6, 44), (7, 30), (8, 17), (8, 24), (10, 10), (10, 14), (12, 8), (12, 12), (9, 20)]
+
+
 def pick_pc(rng, ords):
     """(order, cutoff): orders above 18 only with dyadic cutoffs, so that the exact rational power in the extracted
     model (numerators of 2*order*53 bits, reduced after every product) stays cheap."""
@@ -219,6 +232,21 @@ def generate(ctx):
                                       ([3], [[], [1], [3], [2, 3], [3, 2], [1, 3], [4, 1, 3]]),
                                       ([1], [[], [1], [3], [2, 3]]), ([], [[], [2], [1, 1]]), ([2, 3], [[3], [2, 3], [1, 3], [4, 2, 3], [2, 1]])]):
         yield 'make_filter', {'sshape': ss, 'shapes': shapes, 'jnp': j % 2, 'dseed': 80 + j}
+    for j, (o_, L_) in enumerate(HIGH_ORDER):
+        g = {'M': 2, 'L': L_, 'impl': ['real', 'fast4', 'fast8', 'fast'][j % 4], 'radius': [1.0, 2.0, 0.5][j % 3]}
+        top = [3.0, 0.5, 20.0, 1.0][j % 4]
+        yield 'hdfilter', {'grid': g, 'scale': hd_scale(L_, o_, g['radius'], top), 'order': o_, 'K': 1}
+        yield 'hdstep', {'grid': g, 'dt': top * 0.25, 'tau': 0.25, 'order': o_, 'dseed': 90 + j}
+        if not quick or j % 3 == 0:
+            yield 'tree', {'grid': g, 'kind': 'hd', 'par': [hd_scale(L_, o_, g['radius'], 2.0), o_], 'K': 1, 'dseed': 110 + j}
+            yield 'array_strength', {'grid': g, 'kind': 'hd', 'strengths': [hd_scale(L_, o_, g['radius'], t_) for t_ in (0.5, 4.0)],
+                                     'par': [o_], 'lead': 3, 'K': 1, 'dseed': 130 + j}
+    if not quick:
+        for _ in range(20):
+            o_ = int(rng.integers(5, 13)); L_ = int(rng.integers(8, 45)); r_ = pick(rng, [1.0, 2.0, 0.5])
+            g = {'M': int(rng.integers(1, 4)), 'L': L_, 'impl': pick(rng, IMPLS[:4]), 'radius': r_}
+            yield 'hdfilter', {'grid': g, 'scale': hd_scale(L_, o_, r_, pick(rng, [0.25, 1.0, 5.0, 40.0])), 'order': o_, 'K': 1}
+            yield 'hdstep', {'grid': g, 'dt': pick(rng, [0.125, 1.0, 8.0]), 'tau': pick(rng, [0.25, 1.0]), 'order': o_, 'dseed': int(rng.integers(0, 2 ** 31))}
     n = 6 if quick else 60
     for _ in range(n):
         g = rand_grid(rng, ctx.tier)
